@@ -392,7 +392,12 @@ def apply_reference(repo):
         if fi.is_lambda or q not in ref:
             continue
         ref_locals = {n for n, _ in ref[q]["locals"]} | set(ref[q]["params"])
-        n = _split_tuple_assignments(fi.node, ref_locals) + _split_chained_assignments(fi.node) + _assignments_to_ifexp(fi.node, ref[q], ref_locals)
+        n = _split_tuple_assignments(fi.node, ref_locals) + _split_chained_assignments(fi.node)
+        for _round in range(4):         # (if / elif / else chains of one flag: innermost pair first)
+            k_ = _assignments_to_ifexp(fi.node, ref[q], ref_locals)
+            n += k_
+            if not k_:
+                break
         n += _extend_displays(fi.node) + _boolean_returns(fi.node, ref[q])
         n += _increment_through_temp(fi.node, ref_locals) + _ifexp_assignments(fi.node, ref_locals)
         _thread_none_tests(fi.node)
@@ -412,6 +417,9 @@ def apply_reference(repo):
         repo.dict_gets.setdefault(q_, []).extend(v_)
     repo.propagated_constants = propagate_new_constants(repo, ref) if not os.environ.get("VERIF_NO_FOLD_TEMPS") else {}
     repo.folded_temporaries = inline_new_temporaries(repo, ref) if not os.environ.get("VERIF_NO_FOLD_TEMPS") else {}
+    for q_ in repo.folded_temporaries:
+        if q_ in repo.funcs:
+            _simplify_bool_contexts(repo.funcs[q_].node)       # a folded flag brings its conditional expression into the test
     # temporaries folded and aliases removed may have made more first bindings comparable
     for q_, m_ in _rename_towards_reference(repo, ref).items():
         renamed.setdefault(q_, {}).update(m_)
